@@ -67,6 +67,8 @@ type Workload struct {
 	// ExtraOwners (KOwnedPods): further, non-controller ownerReferences around the controller's: "before-false", "after-false",
 	// "before-omitted", "after-omitted", "both-false" (controller: false spelled out, or the field left out)
 	ExtraOwners string `json:"extraOwners,omitempty"`
+	// Pending (Pod manifests only): the pod has no status yet (no host address, no pod addresses) - as a just re-created pod looks
+	Pending bool `json:"pending,omitempty"`
 	// ObjLabels: labels of the controller object itself (metadata.labels of the Deployment ..., and of a CronJob's jobTemplate): they are
 	// labels of the object, not of its pods, and must not matter
 	ObjLabels map[string]string `json:"objLabels,omitempty"`
